@@ -219,9 +219,21 @@ func (c *CodeBuilder) EmitJump(lblName Name, line int) bool {
 			c.Emit(Jump{Label: lbl}, line)
 			return true
 		}
-		c.emitClearReg(top)
+		// Whether a variable of the scope being left is captured may only be
+		// known later in the source (a closure after a backward goto), so
+		// clear all the registers of the scope; the clearing of registers
+		// that turn out not to be cells is dropped when generating code.
+		c.emitClearAllRegs(top)
 	}
 	return false
+}
+
+func (c *CodeBuilder) emitClearAllRegs(m lexicalScope) {
+	for _, tr := range m.reg {
+		if tr.reg >= 0 {
+			c.EmitNoLine(ClearReg{Dst: tr.reg})
+		}
+	}
 }
 
 func (c *CodeBuilder) DeclareLocal(name Name, reg Register) {
